@@ -330,6 +330,16 @@ type aCovert struct {
 	resetOnAccept bool
 	resets        int
 	markers       map[string]chan struct{}
+	// onReply, when set, is called by a session right before it writes its reply (i.e. once the
+	// expected upstream bytes have arrived and while the tunnel is certainly still open)
+	onReply func()
+}
+
+// SetOnReply installs the mid-session hook for the next sessions.
+func (c *aCovert) SetOnReply(f func()) {
+	c.mu.Lock()
+	c.onReply = f
+	c.mu.Unlock()
 }
 
 // Sync returns once every connection that was established to the listener before the call has been
@@ -402,20 +412,23 @@ func aNewCovert(tb testing.TB) *aCovert {
 			}
 			s := &aCovSession{Done: make(chan struct{}), conn: conn}
 			c.sessions = append(c.sessions, s)
-			expect, reply := c.expectUp, c.reply
+			expect, reply, hook := c.expectUp, c.reply, c.onReply
 			c.mu.Unlock()
-			go s.run(expect, reply)
+			go s.run(expect, reply, hook)
 		}
 	}()
 	return c
 }
 
-func (s *aCovSession) run(expect int, reply []byte) {
+func (s *aCovSession) run(expect int, reply []byte, hook func()) {
 	defer close(s.Done)
 	defer s.conn.Close()
 	buf := make([]byte, 32*1024)
 	replied := false
 	if expect == 0 {
+		if hook != nil {
+			hook()
+		}
 		_, _ = s.conn.Write(reply)
 		replied = true
 	}
@@ -427,6 +440,9 @@ func (s *aCovSession) run(expect int, reply []byte) {
 		have := len(s.Received)
 		s.mu.Unlock()
 		if !replied && have >= expect {
+			if hook != nil {
+				hook()
+			}
 			_, _ = s.conn.Write(reply)
 			replied = true
 		}
